@@ -18,6 +18,7 @@ import z3
 R = z3.RealSort()
 UFS = {n: z3.Function(n, R, R) for n in ('sin', 'cos', 'tan', 'exp', 'log', 'sqrt_', 'atan')}
 UFS2 = {n: z3.Function(n, R, R, R) for n in ('atan2', 'pow')}
+RECIP = z3.Function('recip', R, R)
 
 
 class Infeasible(Exception):
@@ -401,9 +402,13 @@ def quot(num, den):
         q = ENG.fresh('q')
         ENG.defs.append(q * den == num)
         return SR(q)
-    q = ENG.fresh('q')
-    ENG.defs.append(z3.And(den != 0, q * den == num))
-    return SR(q)
+    # reciprocal as an uninterpreted function of the (simplified) denominator with its defining equation:
+    # equal denominators share one reciprocal, so identities between quotients stay polynomial
+    rc = RECIP(den_s)
+    d = den_s * rc == 1
+    if not any(z3.eq(d, o) for o in ENG.defs[-40:]):
+        ENG.defs.append(d)
+    return SR(num * rc)
 
 
 def sym(name):
